@@ -271,8 +271,21 @@ WEnter(w) ==
 
 CallerDone(w) == Ctx(w) = "dead" \/ (Ctx(w) = "mortal" /\ w \in cancelled)
 
+\* a caller context whose Done() is itself a gate ("gated"): the select statement first evaluates
+\* ctx.Done() - the goroutine can be held there, between the hook before the select and the select's
+\* atomic choice
+WCtxDone(w) ==
+    /\ pc[w] = "w.select" /\ Ctx(w) = "gated"
+    /\ pc' = PcAfter(One(w, "w.ctxdone"))
+    /\ NoFinish
+    /\ UNCHANGED <<stack, queue, waitq, running, closed, closeErr, werr, ctxDone, tclosed, tcloses, tlog,
+                   flushed, batch, nexts, mutex, mwait, polls, carg, inactives, actives, reads,
+                   readsLeft, rinflight, faults, cancelled, acc, begun, before, accAtClose, closeRet,
+                   lateBegun, drainedOK, fatal, pooled, dirty, corrupt>>
+
 WSelect(w) ==
-    /\ pc[w] = "w.select"
+    /\ \/ pc[w] = "w.select" /\ Ctx(w) # "gated"
+       \/ pc[w] = "w.ctxdone"
     /\ UNCHANGED <<stack, running, closed, closeErr, werr, ctxDone, tclosed, tcloses, tlog,
                    flushed, batch, nexts, mutex, mwait, polls, carg, inactives, actives,
                    reads, readsLeft, rinflight, faults, cancelled, begun, before, accAtClose,
@@ -720,7 +733,7 @@ Served(p) == (p \in Writers \cup Closers) => pc["V"] # "v.start"
 Step(p) ==
   /\ Served(p)
   /\
-    \/ (p \in Writers /\ (MEnter(p) \/ RFEnter(p) \/ WEnter(p) \/ WSelect(p) \/ WCas(p) \/ TWrite(p) \/ TWFlush(p)))
+    \/ (p \in Writers /\ (MEnter(p) \/ RFEnter(p) \/ WEnter(p) \/ WCtxDone(p) \/ WSelect(p) \/ WCas(p) \/ TWrite(p) \/ TWFlush(p)))
     \/ (p \notin Writers /\ (XStart(p) \/ SPoll(p) \/ TWritev(p) \/ SLen(p) \/ TSFlush(p)
                              \/ SRelease(p) \/ SRecheck(p) \/ SRecas(p) \/ SFail(p)
                              \/ CCas(p) \/ CPoll(p) \/ CSetErr(p) \/ TClose(p) \/ CCancel(p)
